@@ -207,16 +207,32 @@ impl<D: DataMut> GGSWCompressed<D> {
 
 impl<D: DataMut> ReaderFrom for GGSWCompressed<D> {
     fn read_from<R: std::io::Read>(&mut self, reader: &mut R) -> std::io::Result<()> {
-        self.k = TorusPrecision(reader.read_u32::<LittleEndian>()?);
-        self.base2k = Base2K(reader.read_u32::<LittleEndian>()?);
-        self.dsize = Dsize(reader.read_u32::<LittleEndian>()?);
-        self.rank = Rank(reader.read_u32::<LittleEndian>()?);
+        // Read into temporaries first: a truncated or corrupt stream must not leave `self` half updated.
+        let k = TorusPrecision(reader.read_u32::<LittleEndian>()?);
+        let base2k = Base2K(reader.read_u32::<LittleEndian>()?);
+        let dsize = Dsize(reader.read_u32::<LittleEndian>()?);
+        let rank = Rank(reader.read_u32::<LittleEndian>()?);
         let seed_len: usize = reader.read_u32::<LittleEndian>()? as usize;
-        self.seed = vec![[0u8; 32]; seed_len];
-        for s in &mut self.seed {
+        if seed_len > self.seed.len() {
+            return Err(std::io::Error::new(
+                std::io::ErrorKind::InvalidData,
+                format!(
+                    "GGSWCompressed seed table too small: self.seed.len()={} < read len={seed_len}",
+                    self.seed.len()
+                ),
+            ));
+        }
+        let mut seed: Vec<[u8; 32]> = vec![[0u8; 32]; seed_len];
+        for s in &mut seed {
             reader.read_exact(s)?;
         }
-        self.data.read_from(reader)
+        self.data.read_from(reader)?;
+        self.k = k;
+        self.base2k = base2k;
+        self.dsize = dsize;
+        self.rank = rank;
+        self.seed = seed;
+        Ok(())
     }
 }
 
